@@ -91,12 +91,14 @@ type Gen struct {
 	lines []string
 	// control-flow slicing: every emitted line carries the tag of the block that produced it (-1: prologue); an
 	// obligation keeps only the lines of blocks that can reach its own block along forward edges
-	lineTag []int
-	curTag  int
-	tagAnc  map[int]map[int]bool
-	obls  []*Obligation
-	ncnt  int
-	kcnt  map[string]int
+	lineTag    []int
+	replayMode bool
+	retStates  map[int]retState // per return ordinal: heap and result values (for replay)
+	curTag     int
+	tagAnc     map[int]map[int]bool
+	obls       []*Obligation
+	ncnt       int
+	kcnt       map[string]int
 
 	vals   map[ssa.Value]*Val
 	states map[*ssa.BasicBlock]*blockState
@@ -228,7 +230,6 @@ func (g *Gen) computeTagAnc() {
 		}
 	}
 }
-
 
 func (g *Gen) declare(name, sort string) { g.emit(fmt.Sprintf("(declare-const %s %s)", name, sort)) }
 
